@@ -573,9 +573,10 @@ class Gen:
             # programs out of session-based checks that are not about that
             main.append(self.node("show", e=self.node("int", v=0)))
         prog = {"id": pid, "funs": self.funs, "main": main, "uses_enum": False, "uses_struct": False}
+        # the declaration of the one struct: Ref.tla checks struct literals against it
+        prog["structs"] = [{"n": "P1", "fs": [{"n": "x", "t": "Int"}, {"n": "y", "t": "String"}]}]
         if self.features.get("ext2"):
             prog["meths"] = self.meths
-            prog["structs"] = [{"n": "P1", "fs": [{"n": "x", "t": "Int"}, {"n": "y", "t": "String"}]}]
         self.fix_lists(prog)
         for f in prog["funs"] + prog.get("meths", []):
             f["b"] = [self.fix_lists(x) for x in self.flat(f["b"])]
